@@ -13,7 +13,8 @@ from vchk import common, rowlib
 from vmon import pipeline
 
 RULE = ("histories of caching runs of the real Balancer over one cache directory (batches B1, B2, B1+B2, permuted, "
-        "overlapping; batch size {None,1,2,n}; threshold {0,.5,.9}; reaction column {reaction, rxn}): every ordered "
+        "overlapping; batch size {None,1,2,n}; threshold {0,.5,.9}; reaction column {reaction, rxn}; same reactions with other / non-ASCII values in a requested "
+        "pass-through column; result rows fed back as input): every ordered "
         "pair over the run alphabet + random length-4/5 histories; each completed run is compared (rows and stats) "
         "with the same run with caching disabled; crash points: for real cache entries every on-disk state (absent, "
         "empty, truncated prefixes, complete, garbage) followed by a run, and real kills of a caching run in a "
@@ -46,8 +47,18 @@ RUNS = [
      "t": 0, "col": "reaction", "remove_aam": False},
     {"name": "B1+aam", "inputs": ["[CH3:1][C:2](=[O:3])[O:4][CH3:5]>>[CH3:1][C:2](=[O:3])[OH:4]"] + B1[:2], "bs": None,
      "t": 0, "col": "reaction"},
+    # the same reactions with other values in a pass-through column that is part of the requested output
+    {"name": "B1+noteA", "inputs": B1, "bs": None, "t": 0, "col": "reaction", "extra_cols": ["note"],
+     "notes": ["a1", "a2", "a3", "a4"]},
+    {"name": "B1+noteB", "inputs": B1, "bs": None, "t": 0, "col": "reaction", "extra_cols": ["note"],
+     "notes": ["b1", "b2", "b3", "b4"]},
+    # non-ASCII text in the rows (and therefore in the cache entry)
+    {"name": "B1+note\u03a9", "inputs": B1, "bs": 2, "t": 0, "col": "reaction", "extra_cols": ["note"],
+     "notes": ["\u03b1-\u043a\u0438\u0441\u043b\u043e\u0442\u0430", "\u00e9ster \u2192 acide", "\u4e59\u9178\u4e59\u916f", "\u03a9\U0001f9ea"]},
+    # result rows of an earlier (uncached) run of B1 fed back as input rows
+    {"name": "B1-refed", "inputs": B1, "bs": None, "t": 0, "col": "reaction", "refeed_of": 0},
 ]
-QUICK_RUNS = [0, 1, 3, 4, 6, 9, 12, 13, 14, 15, 16]
+QUICK_RUNS = [0, 1, 3, 4, 6, 9, 12, 13, 14, 15, 16, 17, 18, 19, 20]
 
 _bal = {}
 _ref = {}
@@ -86,13 +97,19 @@ def do_run(run, cache_dir):
     b.columns = base_cols + list(run.get("extra_cols", []))
     b.remove_aam = run.get("remove_aam", True)
     data = [{run["col"]: rx} for rx in run["inputs"]]
+    if run.get("notes"):
+        for row, note in zip(data, run["notes"]):
+            row["note"] = note
+    if run.get("refeed_of") is not None:
+        src = reference(RUNS[run["refeed_of"]])[0]
+        data = [dict(r) for r in src]
     stats = None if run.get("no_stats") else {}
     buf = io.StringIO()
     try:
         with contextlib.redirect_stderr(buf), contextlib.redirect_stdout(buf):
             rows = b.rebalance(data, output_dict=True, stats=stats, batch_size=run["bs"])
         cols = [c if c != "reaction" else run["col"] for c in COLS] + list(run.get("extra_cols", []))
-        return [{c: r.get(c) for c in cols} for r in rows], stats, None
+        return [{c: _nn(r.get(c)) for c in cols} for r in rows], stats, None
     except Exception as e:  # noqa
         return None, stats, "%s: %s" % (type(e).__name__, str(e)[:160])
     finally:
@@ -100,6 +117,11 @@ def do_run(run, cache_dir):
         b.confidence_threshold = 0
         b.columns = base_cols
         b.remove_aam = True
+
+
+def _nn(x):
+    """NaN (pandas' missing value in re-fed rows) compares unequal to itself: normalise to None"""
+    return None if isinstance(x, float) and x != x else x
 
 
 def reference(run):
@@ -163,6 +185,11 @@ def crash_states(run_i, stride, res):
         for f in files:
             full = blobs[f]
             cuts = sorted(set(list(range(0, len(full), stride)) + [1, 2, len(full) - 2, len(full) - 1, len(full)]))
+            # ... and a cut inside / right before / right after every multi-byte character of the entry
+            nonascii = [i for i, byte in enumerate(full) if byte >= 0x80]
+            if nonascii:
+                res.count("cuts_at_multibyte_characters", len(nonascii))
+            cuts = sorted(set(cuts) | {i + d for i in nonascii for d in (0, 1)})
             states = [("truncated", full[:c]) for c in cuts if 0 <= c <= len(full)]
             states += [("garbage", b"\x00\xff" * 10), ("not_json", b"hello"), ("wrong_type", b"[1, 2]"),
                        ("wrong_keys", b'{"foo": 1}'), ("absent", None)]
@@ -299,9 +326,10 @@ def plan(tier, seed):
     shards = [{"histories": c} for c in common.stripe(hist, 8 if q else 30)]
     if q:
         shards += [{"crash": {"run": 0, "stride": 64}}, {"crash": {"run": 3, "stride": 97}},
+                   {"crash": {"run": 19, "stride": 211}},
                    {"kill": {"run": 0, "ks": 8}}, {"kill": {"run": 3, "ks": 6}}]
     else:
-        shards += [{"crash": {"run": i, "stride": 1 if i in (0, 3) else 7}} for i in (0, 1, 3, 5, 6, 9, 10)]
+        shards += [{"crash": {"run": i, "stride": 1 if i in (0, 3) else 7}} for i in (0, 1, 3, 5, 6, 9, 10, 19)]
         shards += [{"kill": {"run": 0, "ks": "all"}}, {"kill": {"run": 3, "ks": "all"}},
                    {"kill": {"run": 6, "ks": 60}}, {"kill": {"run": 10, "ks": 60}}]
     return shards
